@@ -76,7 +76,8 @@ def check(rep, model, tier):
         if ok:
             second = r[1][1]
             ok = second[0] == 'call' and second[1] == 'concat' and second[2] and second[2][0][0] == 'list' and \
-                sorted(second[2][0][1], key=repr) == sorted((cols[k] for k in samp), key=repr) and dict(second[3]).get('axis') == C(1)
+                sorted(second[2][0][1], key=repr) == sorted((cols[k] for k in samp), key=repr) and \
+                dict(second[3]).get('axis', second[2][1] if len(second[2]) > 1 else None) == C(1)
         if ok:
             rep.ok('PARTITION-PREFIX', f'split_samples_df:{centre}', ssite, found=f'({len(keep)} feature columns, {len(samp)} sample columns), values unchanged')
         else:
@@ -124,7 +125,7 @@ def label_order(rep, model):
 def check_concat(rep, inst, site, r, want):
     r = T.strip_nd(r) if r else r
     ok = r is not None and r[0] == 'call' and r[1] == 'concat' and r[2] and r[2][0][0] in ('list', 'tuple') and list(r[2][0][1]) == want \
-        and dict(r[3]).get('axis', C(0)) == C(0)
+        and dict(r[3]).get('axis', r[2][1] if len(r[2]) > 1 else C(0)) == C(0)
     if ok:
         rep.ok('LABEL-ORDER', inst, site, found=f'{len(want)} tables concatenated in order, each with its own label')
     else:
